@@ -120,3 +120,16 @@ package gateway
 //@   props C09
 //@   at call GetTLSSecretPath#1 assert own-ns: $arg1 == old(namespace) && $arg2 == certRef.Name
 //@ end
+
+// C06 — the routes are sorted before any of them is converted
+//@ count SyncRoute = (*converter).syncRoute
+//@ func (*converter).syncHTTPRoutes
+//@   props C06
+//@   assume-pre sortHTTPRoutes
+//@   at call sortHTTPRoutes#1 assert before-any: calls(SyncRoute) == 0 && $arg0 == httpRoutesSource
+//@ end
+//@ func (*converter).syncTCPRoutes
+//@   props C06
+//@   assume-pre sortTCPRoutes
+//@   at call sortTCPRoutes#1 assert before-any: calls(SyncRoute) == 0 && $arg0 == tcpRoutesSource
+//@ end
